@@ -1041,11 +1041,69 @@ class Engine:
             ety = array_parts(norm_ty(dest_ty))[0] if dest_ty else None
             return ConcSeq(ety, [Cell(self.copy_value(v)) for _ in range(n)])
         if k == 'closure':
-            caps = Struct('closure', [Cell(self.operand(fr, o)) for _, o in rv[2]])
+            ops = [o for _, o in rv[2]]
+            ops = self._closure_missing_captures(fr, rv, ops)
+            caps = Struct('closure', [Cell(self.operand(fr, o)) for o in ops])
             return ClosureV(rv[1], caps, dict(fr.subst) if fr is not None and fr.subst else None)
         if k == 'nullop':
             return self.nullop(fr, rv[1], rv[2])
         raise Unsupported(f'rvalue {rv} in {fr.fn.name}')
+    def _closure_missing_captures(self, fr, rv, ops):
+        """rustc's MIR printer names closure captures by the captured variable; a closure that captures two disjoint fields of the
+        same variable is printed with ONE entry (`{ self: move _5 }`) although it has two captures.  The number of captures the body
+        uses is read from the closure's MIR; missing ones are the borrows made just before the aggregate that nothing else uses."""
+        f = self.P.closure_fn(rv[1])
+        if f is None:
+            return ops
+        cache = self.__dict__.setdefault('_ncaps_cache', {})
+        need = cache.get(f.key)
+        if need is None:
+            idx = []
+
+            def walk(x):
+                if isinstance(x, tuple):
+                    if len(x) == 3 and x[0] == 'place' and x[1] == '_1' and isinstance(x[2], tuple):
+                        for pr in x[2]:
+                            if isinstance(pr, tuple) and pr and pr[0] == 'field':
+                                idx.append(pr[1])
+                                break
+                            if isinstance(pr, tuple) and pr and pr[0] == 'deref':
+                                continue
+                            break
+                    for y in x:
+                        walk(y)
+                elif isinstance(x, list):
+                    for y in x:
+                        walk(y)
+            for bb in f.blocks:
+                stmts, term, _ = parsed_block(f, bb)
+                walk(tuple(stmts))
+                walk(term)
+            need = (max(idx) + 1) if idx else len(ops)
+            cache[f.key] = need
+        if need <= len(ops):
+            return ops
+        # locate the aggregate statement in the creating function
+        for bb in fr.fn.blocks:
+            stmts, term, _ = parsed_block(fr.fn, bb)
+            for i, st in enumerate(stmts):
+                if st[0] == 'assign' and st[2] is rv:
+                    used = {o[1][1] for o in ops if o[0] in ('move', 'copy') and o[1][0] == 'place'}
+                    cand = []
+                    for st2 in stmts[:i]:
+                        if st2[0] == 'assign' and st2[1][0] == 'place' and not st2[1][2] and st2[2][0] in ('ref', 'rawptr', 'addr_of'):
+                            cand.append(st2[1][1])
+                    cand = [c for c in cand if c not in used]
+                    # the captures are created in capture order right before the aggregate
+                    missing = need - len(ops)
+                    if len(cand) >= missing:
+                        given_pos = None
+                        allb = [st2[1][1] for st2 in stmts[:i] if st2[0] == 'assign' and st2[1][0] == 'place' and not st2[1][2] and st2[2][0] in ('ref', 'rawptr', 'addr_of')]
+                        tail = allb[-need:]
+                        if len(tail) == need and all(u in tail for u in used):
+                            return [('move', ('place', n, ())) for n in tail]
+                    raise Unsupported(f'closure {rv[1]} needs {need} captures, the MIR text shows {len(ops)}')
+        raise Unsupported(f'closure {rv[1]} needs {need} captures, the MIR text shows {len(ops)}')
     def nullop(self, fr, op, arg):
         if op in ('UbChecks', 'ContractChecks'):
             return False
